@@ -7,8 +7,12 @@ package rescorr
 
 import (
 	"encoding/json"
+	"errors"
 	"fmt"
 	"os"
+	"path/filepath"
+	"sort"
+	"strconv"
 	"strings"
 	"time"
 
@@ -60,8 +64,204 @@ func Load(c Case) (*yang.Modules, error) {
 	return ms, nil
 }
 
+// FromPath reports whether the case asks for the "files on disk" variant (opt-in):
+// Extra["from_path"] = "1" and Extra["roots"] = comma separated indices of the texts the caller
+// hands to Modules.Parse itself; every other text is written as a file (under its name) to a
+// fresh directory that is put on the search path, so that only Process loads it, if an import
+// or include reaches it.  The worker then reports, in GoOut.Extra["loaded"], the names of the
+// texts that ended up loaded, in load order, and RunAll asks the model with exactly those.
+func FromPath(c Case) bool { return c.Extra["from_path"] == "1" }
+
+func rootsOf(c Case) []int {
+	var roots []int
+	for _, f := range strings.Split(c.Extra["roots"], ",") {
+		if i, err := strconv.Atoi(strings.TrimSpace(f)); err == nil && i >= 0 && i < len(c.Names) {
+			roots = append(roots, i)
+		}
+	}
+	return roots
+}
+
+// runFromPath is RunGo for the files-on-disk variant.
+func runFromPath(c Case, hook Hook) GoOut {
+	var out GoOut
+	dir, err := os.MkdirTemp("", "rescorrpath")
+	if err != nil {
+		out.ParseErr = "tempdir: " + err.Error()
+		return out
+	}
+	defer os.RemoveAll(dir)
+	dir, _ = filepath.EvalSymlinks(dir)
+	libDir := filepath.Join(dir, "lib")
+	cwd := filepath.Join(dir, "cwd") // stays empty: findFile looks into "." first
+	os.Mkdir(libDir, 0o755)
+	os.Mkdir(cwd, 0o755)
+	roots := rootsOf(c)
+	isRoot := map[int]bool{}
+	for _, i := range roots {
+		isRoot[i] = true
+	}
+	for i := range c.Names {
+		if !isRoot[i] {
+			if strings.ContainsAny(c.Names[i], "/\\") {
+				out.ParseErr = "from_path: file name with a separator"
+				return out
+			}
+			if err := os.WriteFile(filepath.Join(libDir, c.Names[i]), []byte(c.Texts[i]), 0o644); err != nil {
+				out.ParseErr = "write: " + err.Error()
+				return out
+			}
+		}
+	}
+	if old, err := os.Getwd(); err == nil {
+		defer os.Chdir(old)
+	}
+	os.Chdir(cwd)
+	ms := yang.NewModules()
+	ms.ParseOptions.IgnoreSubmoduleCircularDependencies = c.IgnoreCircular
+	ms.ParseOptions.DeviateOptions.IgnoreDeviateNotSupported = c.IgnoreNotSupported
+	ms.AddPath(libDir)
+	for _, i := range roots {
+		if err := ms.Parse(c.Texts[i], c.Names[i]); err != nil {
+			out.ParseErr = fmt.Sprintf("%s: %v", c.Names[i], err)
+			return out
+		}
+	}
+	errs := ms.Process()
+	// files found on the path are known to goyang under their full path: positions are
+	// compared under the bare file name, as for texts handed over directly
+	bare := make([]error, len(errs))
+	for i, e := range errs {
+		bare[i] = errors.New(strings.ReplaceAll(e.Error(), libDir+string(filepath.Separator), ""))
+	}
+	out.Dump = lib.DumpOutcome(ms, bare)
+	out.Extra = map[string][]string{"loaded": loadedOrder(c, ms, roots, libDir)}
+	if hook != nil {
+		hook(c, ms, bare, &out)
+	}
+	return out
+}
+
+// loadedOrder reconstructs which texts are loaded and in which order: the roots as handed over,
+// then what the linking walk of process() (explicitly loaded modules in full-name order; per
+// module its includes, then its imports, depth first, stopping at the first miss) reads from the
+// path at first encounter; anything loaded that the walk does not explain comes last, by name.
+func loadedOrder(c Case, ms *yang.Modules, roots []int, lib string) []string {
+	fileOf := func(m *yang.Module) string {
+		if m == nil || m.Source == nil {
+			return ""
+		}
+		loc := m.Source.Location()
+		for k := 0; k < 2; k++ {
+			if i := strings.LastIndexByte(loc, ':'); i >= 0 {
+				loc = loc[:i]
+			}
+		}
+		return strings.TrimPrefix(loc, lib+string(filepath.Separator))
+	}
+	var loaded []string
+	have := map[string]bool{}
+	add := func(n string) {
+		if n != "" && !have[n] {
+			have[n] = true
+			loaded = append(loaded, n)
+		}
+	}
+	for _, i := range roots {
+		add(c.Names[i])
+	}
+	var start []*yang.Module
+	seen := map[*yang.Module]bool{}
+	for _, m := range ms.Modules {
+		if !seen[m] && have[fileOf(m)] {
+			seen[m] = true
+			start = append(start, m)
+		}
+	}
+	sort.SliceStable(start, func(i, j int) bool { return start[i].FullName() < start[j].FullName() })
+	find := func(mm map[string]*yang.Module, name string, rd *yang.Value) *yang.Module {
+		if rd != nil {
+			if n := mm[name+"@"+rd.Name]; n != nil {
+				return n
+			}
+		}
+		return mm[name]
+	}
+	visited := map[*yang.Module]bool{}
+	var visit func(m *yang.Module) bool
+	visit = func(m *yang.Module) bool {
+		if visited[m] {
+			return true
+		}
+		visited[m] = true
+		for _, i := range m.Include {
+			im := find(ms.SubModules, i.Name, i.RevisionDate)
+			if im == nil {
+				return false
+			}
+			add(fileOf(im))
+			if !visit(im) {
+				return false
+			}
+		}
+		for _, i := range m.Import {
+			im := find(ms.Modules, i.Name, i.RevisionDate)
+			if im == nil {
+				return false
+			}
+			add(fileOf(im))
+			if !visit(im) {
+				return false
+			}
+		}
+		return true
+	}
+	for _, m := range start {
+		visit(m)
+	}
+	var rest []string
+	for _, mm := range []map[string]*yang.Module{ms.Modules, ms.SubModules} {
+		for _, m := range mm {
+			if n := fileOf(m); !have[n] {
+				rest = append(rest, n)
+			}
+		}
+	}
+	sort.Strings(rest)
+	for _, n := range rest {
+		add(n)
+	}
+	return loaded
+}
+
+// loadedCase is the case the model is asked with for a files-on-disk case: the texts that ended
+// up loaded, in load order ("" names that are not texts of the case make it unusable: nil).
+func loadedCase(c Case, loaded []string) *Case {
+	idx := map[string]int{}
+	for i, n := range c.Names {
+		if _, dup := idx[n]; dup {
+			return nil
+		}
+		idx[n] = i
+	}
+	c2 := c
+	c2.Names, c2.Texts = nil, nil
+	for _, n := range loaded {
+		i, ok := idx[n]
+		if !ok {
+			return nil
+		}
+		c2.Names = append(c2.Names, c.Names[i])
+		c2.Texts = append(c2.Texts, c.Texts[i])
+	}
+	return &c2
+}
+
 // RunGo is the worker body for one case.
 func RunGo(c Case, hook Hook) GoOut {
+	if FromPath(c) {
+		return runFromPath(c, hook)
+	}
 	var out GoOut
 	ms, err := Load(c)
 	if err != nil {
@@ -159,6 +359,15 @@ func RunAll(cases []Case, f *lib.Flags) []Outcome {
 		if outs[i].Go.ParseErr != "" {
 			outs[i].Skipped = "parse"
 			continue
+		}
+		if FromPath(c) {
+			// the model gets exactly the texts that ended up loaded, in the order Go loaded them
+			lc := loadedCase(c, outs[i].Go.Extra["loaded"])
+			if lc == nil {
+				outs[i].Skipped = "from_path: loaded set not reconstructible"
+				continue
+			}
+			c = *lc
 		}
 		r := Request(c)
 		if r == "" {
